@@ -76,6 +76,7 @@ class Job:
         self.fails = fails
         self.executions = 1
         self.waiters: List = []         # (stream, message_id)
+        self.terminal_at = None         # simulated time at which the job reached a terminal state
 
 
 class ModelQuantumEngine:
@@ -102,6 +103,8 @@ class ModelQuantumEngine:
         self.msg_kind: Dict[str, str] = {}
         self.lost_requests: List[str] = []      # T2: message ids dropped by a dead reader
         self.injected_unary: List = []
+        self.connect_stalls = False             # set by the workload (per run)
+        self.connecting: List = []
         self.client = _Client(self)
         self.problems: List[str] = []
         self.is_subscribed = lambda mid: True   # set by the workload: peeks at the client's demux
@@ -109,6 +112,7 @@ class ModelQuantumEngine:
         self.unary_pending: List = []           # [id, rpc name, request, asyncio future]
         self.unary_log: List = []               # (rpc name, target name, outcome)
         self._unary_seq = 0
+        self.unary_times: Dict[int, list] = {}  # uid -> [rpc, target, t_issued, t_completed, outcome]
         self.unary_fault_budget = 3 if (enabled_faults.get("unary-5xx") or enabled_faults.get("unary-4xx")) else 0
 
     # ------------------------------------------------------------------------------------------------
@@ -188,6 +192,8 @@ class ModelQuantumEngine:
         for name, job in self.jobs.items():
             if job.state == "RUNNING":
                 evs.append((f"finish:{name.rsplit('/', 1)[-1]}", (lambda j=job: self._finish(j))))
+            elif job.state == "CANCELLING":
+                evs.append((f"cancelled:{name.rsplit('/', 1)[-1]}", (lambda j=job: self._cancelled(j))))
         for st in self.streams:
             if st.alive:
                 for i, resp in enumerate(st.outbox):
@@ -196,6 +202,10 @@ class ModelQuantumEngine:
                 if st.half_closed and not st.unanswered and not st.unprocessed:
                     evs.append((f"close:{st.epoch}", (lambda s=st: self._end_stream(s))))
         evs.extend(self._unary_events())
+        for i, fut in enumerate(self.connecting):
+            if not fut.done():
+                evs.append((f"connect:{i}", (lambda f=fut: (not f.done()) and f.set_result(None))))
+        self.connecting = [f for f in self.connecting if not f.done()]
         if self.fault_budget > 0 and not self.sim.fair:
             for st in self.streams:
                 if st.alive and not st.ended:
@@ -272,18 +282,36 @@ class ModelQuantumEngine:
 
     def _finish(self, job: Job) -> None:
         job.state = "FAILED" if job.fails else "DONE"
+        job.terminal_at = self.sim.now
         if job.fails:
             self.ctx.fault("job-fails")
         for st, mid in job.waiters:
             self._reply_final(st, mid, job)
         job.waiters = []
 
+    def _cancelled(self, job: Job) -> None:
+        """A cancel request took effect: CANCELLING -> CANCELLED (terminal)."""
+        job.state = "CANCELLED"
+        job.terminal_at = self.sim.now
+        for st, mid in job.waiters:
+            self._reply_final(st, mid, job)
+        job.waiters = []
+
+    def cancel_job(self, name: str) -> None:
+        self.cancel_requests.append(name)
+        self.ctx.event("cancel-rpc", name.rsplit("/", 1)[-1])
+        job = self.jobs.get(name)
+        if job is not None and job.state == "RUNNING":
+            job.state = "CANCELLING"        # transient, observable by get_quantum_job
+            self.ctx.probe("w3:job-cancelling")
+
     def _reply_final(self, st: Stream, mid: str, job: Job) -> None:
         if job.state == "DONE":
             self._reply(st, mid, result=self.make_result(job.name))
         else:
             qj = quantum.QuantumJob(name=job.name)
-            qj.execution_status.state = quantum.ExecutionStatus.State.FAILURE
+            qj.execution_status.state = (quantum.ExecutionStatus.State.CANCELLED if job.state == "CANCELLED"
+                                         else quantum.ExecutionStatus.State.FAILURE)
             self._reply(st, mid, job=qj)
 
     def make_result(self, job_name: str):
@@ -304,6 +332,7 @@ class ModelQuantumEngine:
         self.unary_pending.remove(item)
         if fut.done():
             return
+        self.unary_times[uid][3] = self.sim.now
         if (self.unary_fault_budget > 0 and not self.sim.fair and (self.enabled_faults.get("unary-5xx") or
                                                                     self.enabled_faults.get("unary-4xx"))
                 and self.sim.tape.chance(1, 3, "unary-fault?")):
@@ -326,13 +355,14 @@ class ModelQuantumEngine:
             fut.set_exception(e)
             return
         self.unary_log.append((name, _target(req), "ok", "model"))
+        self.unary_times[uid][4] = "ok"
         fut.set_result(res)
 
     def _job_proto(self, job: Job):
         qj = quantum.QuantumJob(name=job.name)
         st = quantum.ExecutionStatus.State
         qj.execution_status.state = {"RUNNING": st.RUNNING, "DONE": st.SUCCESS, "FAILED": st.FAILURE,
-                                     "CANCELLED": st.CANCELLED}[job.state]
+                                     "CANCELLING": st.CANCELLING, "CANCELLED": st.CANCELLED}[job.state]
         return qj
 
     def _rpc_get_quantum_job(self, req):
@@ -443,6 +473,13 @@ class _Client:
 
     async def quantum_run_stream(self, requests, **kwargs):
         m = self.m
+        if m.connect_stalls:
+            # the call does not return until the transport is connected: a separate server event, so
+            # requests can pile up unsent (and the user can act) while the stream is still connecting
+            fut = asyncio.get_running_loop().create_future()
+            m.connecting.append(fut)
+            m.ctx.probe("w3:connect-stalled")
+            await fut
         st = m.open_stream(requests)
 
         async def response_iterator():
@@ -475,6 +512,7 @@ class _Client:
         fut = asyncio.get_running_loop().create_future()
         m._unary_seq += 1
         m.unary_pending.append((m._unary_seq, name, request, fut))
+        m.unary_times[m._unary_seq] = [name, _target(request), m.sim.now, None, None]   # issued, completed, outcome
         return await fut
 
     async def get_quantum_job(self, request, **kw):
@@ -492,7 +530,6 @@ class _Client:
     async def create_quantum_job(self, request, **kw):
         return await self._unary("create_quantum_job", request)
 
-    async def cancel_quantum_job(self, request) -> None:
-        self.m.cancel_requests.append(request.name)
-        self.m.ctx.event("cancel-rpc", request.name.rsplit("/", 1)[-1])
+    async def cancel_quantum_job(self, request, **kw) -> None:
+        self.m.cancel_job(request.name)
         await asyncio.sleep(0)
